@@ -124,6 +124,23 @@ if mode in ("threading", "nested"):
         x["o"]["p"] = NEW
     else:
         x.reset(NEW)
+elif mode == "reenabled":
+    # multithreading support switched off and on again earlier in the process: saves must be atomic again
+    JSONDict.disable_multithreading()
+    JSONDict.enable_multithreading()
+    x = JSONDict(f1)
+    x()
+    mark("MARK_BEGIN"); arm()
+    x.reset(NEW)
+elif mode == "reenabled_flush":
+    BufferedJSONDict.disable_multithreading()
+    BufferedJSONDict.enable_multithreading()
+    x, y = BufferedJSONDict(f1), BufferedJSONDict(f2)
+    x(); y()
+    mark("MARK_BEGIN"); arm()
+    with BufferedJSONDict.buffer_backend():
+        x["new"] = NEW
+        y["new"] = [NEW, NEW]
 elif mode == "write_concern":
     JSONDict.disable_multithreading()
     x = JSONDict(f1, write_concern=True)
